@@ -460,7 +460,10 @@ Proof.
 Qed.
 
 (* ---- witnesses -------------------------------------------------------------------------- *)
-(* ⟨1|2|3⟩ : 0 9 Ȧ  -- the copy made by `:` reads the list object that Ȧ assigns into *)
+(* facts about the model's in-place primitives (what WOULD happen if code applied them to an
+   object another reference reads; before /repo 04249bb Ȧ and Ḟ did, today ⅛ / ¼ do so to
+   ctx.global_array, which is why ¾ materialises its copy).
+   The copy made by `:` reads the list object: an assignment into it shows through *)
 Definition st_eager (l : list Z) : state := {| objs := [l]; copies := []; lz := [] |}.
 Definition st_lazy (l : list Z) : state := {| objs := []; copies := []; lz := init l |}.
 
@@ -472,7 +475,8 @@ Proof.
   vm_compute. repeat split; auto.
 Qed.
 
-(* ⟨1|2⟩ : ⁽+ Ḟ  -- made = lhs; made.append(next_item): the untouched copy grows *)
+(* l.append(x) on an object a lazy view still reads: the view grows.  This is `1⅛ ¾ 2⅛` with
+   a ¾ that pushes deep_copy(ctx.global_array) without list(...) *)
 Lemma append_changes_copy :
   exists st r st1 r', swf st /\ rvalid st r /\ dup st r = Some (st1, r') /\
     rden st1 r' = [1; 2] /\ rden (erun st1 [ECObs 0 (KIndex 0); EAppend 0 3; EAppend 0 5]) r' = [1; 2; 3; 5].
@@ -495,6 +499,13 @@ Qed.
 Lemma assign_after_read_unseen :
   rden (erun (snd (estep (st_eager [1; 2; 3]) (EDup 0))) [ECObs 0 KListify; EAssign 0 0 9]) (RCopy 0) = [1; 2; 3].
 Proof. vm_compute. reflexivity. Qed.
+
+(* ... and the materialised snapshot list(deep_copy(l)) - a new eager object with the items of
+   l - does not: object 1 is the snapshot of object 0, the view is copy cell 0 *)
+Lemma snapshot_vs_view :
+  let st := snd (estep {| objs := [[1]; [1]]; copies := []; lz := [] |} (EDup 0)) in
+  rden (erun st [EAppend 0 2]) (REager 1) = [1] /\ rden (erun st [EAppend 0 2]) (RCopy 0) = [1; 2].
+Proof. vm_compute. split; reflexivity. Qed.
 
 (* non-vacuity of copy_kept: eager and lazy originals, observations on both references *)
 Definition ex_es : list eop :=
